@@ -49,6 +49,9 @@ CLAIMED = {
  "C17": ("seq", "exploration",
          "Seeded deterministic simulation over a grid of configurations given as entity and as YAML text: accept/refuse compared with an independent predicate; for accepted ones a node created on the initialising thread and one created on a second (spawned-and-joined, never concurrent) thread run the same virtual-time write/read history and must both show the configured geometry.",
          "DESIGN.md §4 C17", "deterministic simulation: serialised real threads + virtual clock, behavioural measurement of window geometry vs reference", SEQ_NOTE),
+ "C20": ("seq", "exploration",
+         "Seeded deterministic simulation of request sequences through the real SentinelService around a scripted inner service (ready/pending x j, Ok/Err) with a hand-written executor that polls one in-flight future at a time in PRNG order; inner-call counts, outputs and the resource's in-flight count are compared with a reference isolation model after every step. Inner-service failure and slow (pending) inner calls are the injected faults.",
+         "DESIGN.md §4 C20", "deterministic simulation: scripted inner service + deterministic future executor + fault sequence (inner errors, pending polls) vs reference admission model", SEQ_NOTE),
 }
 
 PENDING_REASON = "check not built yet in this round (design in DESIGN.md §4); not claimed until it runs"
